@@ -927,6 +927,15 @@ class Sim:
 
     # ------------------------------------------------------------ calls
     def _call(self, fn, env, bb, t, path, depth):
+        if "indirect" in t["callee"]:
+            # a call through a function pointer / fn item held in a local: resolved by the value at hand
+            fv = self._deref(self.operand(env, t["callee"]["indirect"], path), path)
+            if isinstance(fv, FnItem):
+                tgt = self.find_fn(fv.path)
+                t = dict(t)
+                t["callee"] = {"path": fv.path, "resolved": fv.path, "resolved_kind": "Item",
+                               "crate": tgt.crate if tgt is not None else None,
+                               "resolved_crate": tgt.crate if tgt is not None else None}
         args = [self.operand(env, a, path) for a in t["args"]]
         names = F.callee_names(t)
         nxt = t.get("t")
